@@ -139,7 +139,10 @@ def parse_ref(src: str, root_ast: AST) -> AST:
             return _wrap_parse('_[\n', src, '\n]', ('body', 0, 'value', 'slice'))
 
         if cls is ast.Starred:
-            return _wrap_parse('[\n', src, '\n]', ('body', 0, 'value', 'elts', 0))
+            try:
+                return _wrap_parse('[\n', src, '\n]', ('body', 0, 'value', 'elts', 0))
+            except SyntaxError:
+                return _wrap_parse('_(\n', src, '\n)', ('body', 0, 'value', 'args', 0))  # arglike `*not a`, `*a or b`
 
         if cls is ast.Tuple and any(isinstance(e, ast.Slice) for e in root_ast.elts):
             return _wrap_parse('_[\n', src, '\n]', ('body', 0, 'value', 'slice'))
